@@ -7,21 +7,45 @@ import (
 	"github.com/gogpu/naga/spirv"
 )
 
+// TestSmoke is a developer aid: SPV_SMOKE=file.wgsl [SPV_POLICY=1|2] [SPV_RUN=1] prints the
+// disassembly, the validator issues and optionally runs "main" on zeroed buffers.
 func TestSmoke(t *testing.T) {
 	src := os.Getenv("SPV_SMOKE")
 	if src == "" {
 		t.Skip()
 	}
 	data, _ := os.ReadFile(src)
-	m := mustModule(t, string(data), spirv.Version1_3)
+	opts := spirv.Options{Version: spirv.Version1_3, Debug: true}
+	switch os.Getenv("SPV_POLICY") {
+	case "1":
+		opts.BoundsCheckPolicies = spirv.BoundsCheckPolicies{ImageLoad: 1, ImageStore: 1, Index: 1}
+	case "2":
+		opts.BoundsCheckPolicies = spirv.BoundsCheckPolicies{ImageLoad: 2, ImageStore: 2, Index: 2}
+	}
+	if os.Getenv("SPV_LOOPBOUND") != "" {
+		opts.ForceLoopBounding = true
+	}
+	bin, err := compileWGSLOpts(string(data), opts)
+	if err != nil {
+		t.Fatal(err)
+	}
+	m, err := Parse(bin)
+	if err != nil {
+		t.Fatal(err)
+	}
 	t.Log("\n" + m.Disassemble())
 	for _, is := range Validate(m) {
 		t.Logf("ISSUE %s: %s (inst %d)", is.Rule, is.Msg, is.Inst)
 	}
 	if os.Getenv("SPV_RUN") != "" {
-		out := make([]byte, 64)
-		inp := make([]byte, 64)
-		res, err := Run(m, RunConfig{Entry: "main", Buffers: map[Key][]byte{{0, 0}: out, {0, 1}: inp}, NumWorkgroups: [3]uint32{1, 1, 1}})
-		t.Logf("res=%+v err=%v out=%v", res, err, getU32(out))
+		bufs := map[Key][]byte{}
+		for _, rv := range m.ResourceVars() {
+			bufs[Key{rv.Set, rv.Binding}] = make([]byte, 64)
+		}
+		res, err := Run(m, RunConfig{Entry: "main", Buffers: bufs, NumWorkgroups: [3]uint32{1, 1, 1}})
+		t.Logf("res=%+v err=%v", res, err)
+		for k, b := range bufs {
+			t.Logf("%v: %v", k, getU32(b))
+		}
 	}
 }
